@@ -181,8 +181,10 @@ func c20body(hist []string, plan []string, res *result, prov **genProvider) func
 					ev("event %s", h)
 					vs.Deliver(sig) // os/signal delivery is a non-blocking send to every registered channel
 				case "shutdown":
+					// "Shutdown() calls from several goroutines": every shutdown event is its own caller, so that two of them (and
+					// the final one below) can overlap
 					ev("event shutdown()")
-					col.Shutdown()
+					vs.GoNamed("shutdown-caller", func() { col.Shutdown() })
 				case "ctx":
 					ev("event ctxCancel")
 					cancel()
